@@ -53,7 +53,7 @@ PROP = dict(
           'concurrently (operation lists or hot loop); distinct by hash of '
           '(thread count, repeats, pool contents, hot-loop parameters, roles, '
           'assignment)'),
-    quick=dict(configs=['tsan', 'rel'], cases=7200, maxlen=400, workers=16,
+    quick=dict(configs=['tsan', 'rel'], cases=8800, maxlen=400, workers=16,
                shares={'tsan': 9, 'rel': 7}),
     thorough=dict(configs=['tsan', 'rel'], cases=60000, maxlen=400, workers=16,
                   shares={'tsan': 9, 'rel': 7}, fuzz_s=0),
